@@ -24,6 +24,14 @@ def _part(env, tag, tomo, sub, rng=(-50, 150), srng=(-2, 2), shifts=True):
     return p
 
 
+def _cpart(tomo, sub, pos, shift=(0.25, -0.5, 0.125)):
+    """a concrete companion particle"""
+    p = {"tomo_id": tomo, "subtomo_id": sub, "score": 0.5, "class": 1.0, "object_id": sub, "geom1": sub * 10, "phi": 10.0 * sub, "theta": 20.0, "psi": 30.0}
+    for c, v, sh in zip("xyz", pos, shift):
+        p[c], p["shift_" + c] = float(v), float(sh)
+    return p
+
+
 def _kept(df, sub):
     return any(float(v) == sub for v in df["subtomo_id"].tolist())
 
@@ -45,9 +53,19 @@ def _num_arr(env, vals):
     return np.array(vals, dtype=float)
 
 
+def _picki(env, name, k):
+    v = env.choice(name, list(range(k)))
+    if env.mode == "sym":
+        from sx import core
+        return int(core.concretize(v)) if core.is_sym(v) else int(v)
+    return int(v)
+
+
 def h_out_of_bounds(env, boundary_type="center", same_tomo=False, dims_kind="Nx4", index="default"):
     cm = env.module("cryomotl")
     rows = [_part(env, "a", 1.0, 1.0), _part(env, "b", 1.0 if same_tomo else 2.0, 2.0)]
+    if dims_kind in ("com", "txt"):
+        rows[1] = _cpart(1.0, 2.0, (150.0, 50.0, 25.0))          # concrete companion: between the x and y sizes of a non-square tomogram
     m = mk_motl(env, cm, rows)
     if index == "gaps":
         m.df.index = [3, 1]            # row labels of a list that went through remove_feature / adapt_to_trimming / a subset without reset
@@ -58,6 +76,17 @@ def h_out_of_bounds(env, boundary_type="center", same_tomo=False, dims_kind="Nx4
     dims = _num_arr(env, [[1.0] + d[0], [2.0] + d[1]])
     if dims_kind == "Nx4_df":
         dims = pd.DataFrame(dims)
+    elif dims_kind in ("com", "txt"):
+        # dimensions read from a file (concrete numbers): an IMOD tilt.com (FULLIMAGE = x y, THICKNESS = z) or a text table
+        assert same_tomo
+        cx, cy, cz = [200.0, 120.0, 64.0][_picki(env, "perm", 3):] + [200.0, 120.0, 64.0][:_picki(env, "perm", 3)]
+        d = [[cx, cy, cz], [cx, cy, cz]]
+        if dims_kind == "com":
+            dims = env.real_path("tilt.com")
+            open(dims, "w").write("# Command file to run Tilt\n$tilt -StandardInput\nInputProjections ts.ali\nOutputFile ts_full.rec\nIMAGEBINNED 1\nFULLIMAGE %d %d\nTHICKNESS %d\nSHIFT 0.0 0.0\n$if (-e ./savework) ./savework\n" % (cx, cy, cz))
+        else:
+            dims = env.real_path("dims.txt")
+            open(dims, "w").write("1 %d %d %d\n" % (cx, cy, cz))
     elif dims_kind in ("1x3", "1x3_list"):
         # documented input form for a single tomogram (ioutils.dimensions_load): x y z without a tomogram column
         assert same_tomo
@@ -88,7 +117,7 @@ def h_out_of_bounds(env, boundary_type="center", same_tomo=False, dims_kind="Nx4
     env.check("no_extra_rows", env.true() if m.df.shape[0] == sum(_kept(m.df, float(i + 1)) for i in range(2)) else env.not_(env.true()))
 
 
-def h_adapt_to_trimming(env):
+def h_adapt_to_trimming(env, reuse=False):
     cm = env.module("cryomotl")
     rows = [_part(env, "a", 1.0, 1.0), _part(env, "b", 2.0, 2.0)]
     m = mk_motl(env, cm, rows)
@@ -96,7 +125,13 @@ def h_adapt_to_trimming(env):
     st = [env.real("start%s" % ax, -20, 150) for ax in "xyz"]
     en = [env.real("end%s" % ax, -20, 150) for ax in "xyz"]
     env.assume(env.and_(*[env.le(a, b) for a, b in zip(st, en)]))
-    m.adapt_to_trimming(objcol(st) if env.mode == "sym" else np.array(st), objcol(en) if env.mode == "sym" else np.array(en))
+    A, B = (objcol(st) if env.mode == "sym" else np.array(st)), (objcol(en) if env.mode == "sym" else np.array(en))
+    if reuse:
+        # the same start / end arrays serve several lists of one trimmed tomogram: they are inputs, not scratch space
+        other = cm.Motl(cm.Motl.create_empty_motl_df())          # an empty list of the same tomogram: no row decisions, same array handling
+        other.adapt_to_trimming(A, B)
+        env.check("callers_trim_arrays_unchanged", env.and_(*[env.eq(u, v) for u, v in zip(list(A) + list(B), st + en)]))
+    m.adapt_to_trimming(A, B)
     for i, r in enumerate(before):
         sub = float(i + 1)
         new = [r[c] - (s - 1) for c, s in zip("xyz", st)]
@@ -203,9 +238,10 @@ def jobs(tier, seed):
         ("h_out_of_bounds", {"boundary_type": "center"}),
         ("h_out_of_bounds", {"boundary_type": "whole"}),
         ("h_out_of_bounds", {"boundary_type": "center", "same_tomo": True, "dims_kind": "Nx4_df"}),
-        ("h_out_of_bounds", {"boundary_type": "center", "same_tomo": True, "dims_kind": "1x3"}), ("h_out_of_bounds", {"boundary_type": "whole", "same_tomo": True, "dims_kind": "1x3_list"}),
-        ("h_out_of_bounds", {"boundary_type": "center", "index": "swapped"}), ("h_out_of_bounds", {"boundary_type": "whole", "same_tomo": True, "index": "gaps"}),
-        ("h_adapt_to_trimming", {}),
+        ("h_out_of_bounds", {"boundary_type": "center", "same_tomo": True, "dims_kind": "1x3"}), ("h_out_of_bounds", {"boundary_type": "center", "same_tomo": True, "dims_kind": "1x3_list"}),
+        ("h_out_of_bounds", {"boundary_type": "center", "same_tomo": True, "dims_kind": "com"}), ("h_out_of_bounds", {"boundary_type": "center", "same_tomo": True, "dims_kind": "txt"}),
+        ("h_out_of_bounds", {"boundary_type": "center", "index": "swapped"}), ("h_out_of_bounds", {"boundary_type": "center", "same_tomo": True, "index": "gaps"}),
+        ("h_adapt_to_trimming", {}), ("h_adapt_to_trimming", {"reuse": True}),
         ("h_clean_by_points", {"same_tomo": True}),
         ("h_clean_by_points", {"same_tomo": False, "inplace": False}),
         ("h_clean_by_points", {"same_tomo": False, "npoints": 1}),     # a tomogram without any reference point
@@ -213,7 +249,8 @@ def jobs(tier, seed):
         ("h_clean_by_tomo_mask", {"mask": "m322", "same_tomo": False, "outside_first": False, "outside_kind": "low"}),
     ]
     if tier == "thorough":
-        j += [("h_out_of_bounds", {"boundary_type": "whole", "same_tomo": True}),
+        j += [("h_out_of_bounds", {"boundary_type": "whole", "same_tomo": True}), ("h_out_of_bounds", {"boundary_type": "whole", "same_tomo": True, "dims_kind": "1x3_list"}),
+              ("h_out_of_bounds", {"boundary_type": "whole", "same_tomo": True, "index": "gaps"}),
               ("h_clean_by_points", {"same_tomo": True, "inplace": False}),
               ("h_clean_by_tomo_mask", {"mask": "m222b", "same_tomo": False, "outside_kind": "low"}),
               ("h_clean_by_tomo_mask", {"mask": "m223", "same_tomo": True, "outside_first": False}),
